@@ -1072,7 +1072,16 @@ func (fr *Frame) indexAddr(st *State, x *ssa.IndexAddr) {
 		_ = u
 	case *types.Pointer:
 		arr := u.Elem().Underlying().(*types.Array)
-		fr.oblige(st, "nil", fr.exprText(x.X)+" != nil", "(not (= "+base.T+" nil))", x.Pos())
+		_, isAlloc := x.X.(*ssa.Alloc)
+		if !isAlloc {
+			fr.oblige(st, "nil", fr.exprText(x.X)+" != nil", "(not (= "+base.T+" nil))", x.Pos())
+		}
+		if c, ok := x.Index.(*ssa.Const); ok && c.Value != nil && isAlloc {
+			if n, ok := constant.Int64Val(constant.ToInt(c.Value)); ok && n >= 0 && n < arr.Len() {
+				fr.vals[x] = Val{T: vc.elemRef(base.T, idx), Ty: x.Type()}
+				return
+			}
+		}
 		fr.oblige(st, "index", fr.exprText(x), fmt.Sprintf("(and (<= 0 %s) (< %s %d))", idx, idx, arr.Len()), x.Pos())
 		fr.vals[x] = Val{T: vc.elemRef(base.T, idx), Ty: x.Type()}
 	default:
@@ -1166,8 +1175,10 @@ func (fr *Frame) slice(st *State, x *ssa.Slice) {
 		lo := opt(x.Low, "0")
 		hi := opt(x.High, n)
 		mx := opt(x.Max, n)
-		fr.oblige(st, "nil", fr.exprText(x.X)+" != nil", "(not (= "+base.T+" nil))", x.Pos())
-		fr.oblige(st, "slice", fr.sliceText(x), fmt.Sprintf("(and (<= 0 %s) (<= %s %s) (<= %s %s) (<= %s %s))", lo, lo, hi, hi, mx, mx, n), x.Pos())
+		if _, isAlloc := x.X.(*ssa.Alloc); !isAlloc || x.Low != nil || x.High != nil || x.Max != nil {
+			fr.oblige(st, "nil", fr.exprText(x.X)+" != nil", "(not (= "+base.T+" nil))", x.Pos())
+			fr.oblige(st, "slice", fr.sliceText(x), fmt.Sprintf("(and (<= 0 %s) (<= %s %s) (<= %s %s) (<= %s %s))", lo, lo, hi, hi, mx, mx, n), x.Pos())
+		}
 		fr.defineVal(x, fmt.Sprintf("(mk-slice %s %s (- %s %s) (- %s %s))", base.T, lo, hi, lo, mx, lo))
 	default:
 		vc.unsupported("Slice on " + x.X.Type().String())
@@ -1530,6 +1541,10 @@ func (fr *Frame) convert(st *State, x *ssa.Convert) {
 		fr.vals[x] = Val{T: v.T, Ty: to}
 	case isString(from) && isString(to):
 		fr.vals[x] = Val{T: v.T, Ty: to}
+	case isString(to) && isInteger(from) && isConstRune(x.X):
+		c := x.X.(*ssa.Const)
+		n, _ := constant.Int64Val(constant.ToInt(c.Value))
+		fr.vals[x] = Val{T: vc.strConst(string(rune(n))), Ty: to}
 	case isString(to) && isInteger(from):
 		vc.decl("fun:rune2str", "(declare-fun rune2str (Int) "+vc.strSort()+")")
 		fr.defineVal(x, "(rune2str "+v.T+")")
@@ -1764,4 +1779,13 @@ func (fr *Frame) panicAt(st *State, x *ssa.Panic) {
 	}
 	fr.oblige(st, "panic", anchor, goal, x.Pos())
 	fr.panicIf(st, "true", "panic at "+anchor)
+}
+
+func isConstRune(v ssa.Value) bool {
+	c, ok := v.(*ssa.Const)
+	if !ok || c.Value == nil || c.Value.Kind() != constant.Int {
+		return false
+	}
+	n, ok := constant.Int64Val(constant.ToInt(c.Value))
+	return ok && n >= 0 && n < 128
 }
